@@ -170,7 +170,7 @@ def run(ctx, rep):
     # ---------------- R5 explain_matching: year boundary + lookup key
     import rules.c07 as c07
     c07.year_sites(F, rep, rule="R5", only_crate="cgt_mcp")
-    fd = [b for b in F.bodies.values() if b.crate == "cgt_mcp" and b.kind == "method" and "Disposal" in b.ret and P.user_written(F, b)]
+    fd = [b for b in F.bodies.values() if b.crate == "cgt_mcp" and b.kind in ("method", "fn") and re.search(r"models::Disposal\b", b.ret) and b.ret.startswith(("core::result::Result<", "core::option::Option<")) and P.user_written(F, b)]
     for b in fd:
         from roles import guards_of
         tb = Terms(F, b, inline_depth=0)
